@@ -5,7 +5,10 @@ Helper lemmas for the OCO model (property C16).
   recurrence and the zero last row of the sketched update;
 * matrix part (any linearly ordered field with trivial star that is a `StarOrderedRing`, e.g. ℝ, ℚ):
   the model's `Mat` is definitionally a Mathlib `Matrix`; under the SVD specification the deflation
-  `s ↦ (s-ρ)(s+ρ)` removes exactly `σ_min² • VtᵀVt`, which gives the frequent-directions bracket.
+  `s ↦ (s-ρ)(s+ρ)` removes exactly `σ_min² • VtᵀVt`, which gives the frequent-directions bracket;
+* lossless part: the matrix form `appliedMatrix` of the code's preconditioned direction, its inverse-root identity
+  `X·X·(αI + Pᵀdiag(s²)P) = 1` for orthonormal rows of `P`, the rank argument (`sigma_min_zero_of_factor`: a matrix
+  that factors through fewer rows than the sketch size has smallest singular value 0) and the row-space invariant.
 -/
 import PrecondVerif.Model.OCO
 import Mathlib.Algebra.BigOperators.Fin
@@ -13,6 +16,7 @@ import Mathlib.Algebra.Order.Field.Basic
 import Mathlib.Tactic.Ring
 import Mathlib.Tactic.Linarith
 import Mathlib.LinearAlgebra.Matrix.PosDef
+import Mathlib.LinearAlgebra.Matrix.Rank
 
 set_option linter.unusedSectionVars false
 set_option linter.overlappingInstances false
@@ -334,4 +338,327 @@ theorem fd_bracket_from (hsq : ∀ x, 0 ≤ x → sqrt x * sqrt x = x) (gs : Lis
 
 end Mat
 
+/-! ### lossless S-AdaGrad -/
+
+section A
+variable {R : Type} [Field R] [LinearOrder R] [IsStrictOrderedRing R] [StarRing R] [TrivialStar R] [StarOrderedRing R]
+variable {m n k : ℕ}
+
+theorem matVec_eq (P : Mat R m n) (g : Vec R n) : matVec P g = toM P *ᵥ g := by
+  funext i; simp [matVec, sumFin_eq, mulVec, dotProduct]
+
+theorem tMatVec_eq (P : Mat R m n) (c : Vec R m) : tMatVec P c = (toM P)ᵀ *ᵥ c := by
+  funext j; simp [tMatVec, sumFin_eq, mulVec, dotProduct]
+
+/-- the matrix `_fd_update_fn` applies to the gradient in its `else` branch -/
+def appliedMatrix (inv : R → R) (alpha : R) (P : Mat R m n) (s2 : Vec R m) : Matrix (Fin n) (Fin n) R :=
+  (toM P)ᵀ * diagonal (fun i => safeInvert inv (alpha + s2 i)) * toM P
+    + safeInvert inv alpha • (1 - (toM P)ᵀ * toM P)
+
+theorem precondGeneric_eq (inv : R → R) (alpha : R) (P : Mat R m n) (s2 : Vec R m) (g : Vec R n) :
+    precondGeneric inv alpha P s2 g = appliedMatrix inv alpha P s2 *ᵥ g := by
+  funext j
+  simp only [precondGeneric, force_eq, matVec_eq, tMatVec_eq, appliedMatrix]
+  have h1 : (fun i => safeInvert inv (alpha + s2 i) * (toM P *ᵥ g) i)
+      = diagonal (fun i => safeInvert inv (alpha + s2 i)) *ᵥ (toM P *ᵥ g) := by
+    funext i; rw [mulVec_diagonal]
+  rw [h1]
+  simp only [add_mulVec, smul_mulVec, sub_mulVec, one_mulVec, mulVec_mulVec, Matrix.mul_assoc,
+    Pi.add_apply, Pi.smul_apply, Pi.sub_apply, smul_eq_mul]
+
+variable (P : Matrix (Fin m) (Fin n) R) (hP : P * Pᵀ = 1)
+include hP
+
+theorem sandwich_mul (D E : Matrix (Fin m) (Fin m) R) : (Pᵀ * D * P) * (Pᵀ * E * P) = Pᵀ * (D * E) * P := by
+  calc (Pᵀ * D * P) * (Pᵀ * E * P) = Pᵀ * D * (P * Pᵀ) * E * P := by simp only [Matrix.mul_assoc]
+    _ = _ := by rw [hP]; simp only [Matrix.mul_one, Matrix.mul_assoc]
+
+theorem sandwich_mul_compl (D : Matrix (Fin m) (Fin m) R) : (Pᵀ * D * P) * (1 - Pᵀ * P) = 0 := by
+  rw [mul_sub, mul_one]
+  have : (Pᵀ * D * P) * (Pᵀ * P) = Pᵀ * D * P := by
+    calc (Pᵀ * D * P) * (Pᵀ * P) = Pᵀ * D * (P * Pᵀ) * P := by simp only [Matrix.mul_assoc]
+      _ = _ := by rw [hP, Matrix.mul_one]
+  rw [this, sub_self]
+
+theorem compl_mul_sandwich (D : Matrix (Fin m) (Fin m) R) : (1 - Pᵀ * P) * (Pᵀ * D * P) = 0 := by
+  rw [sub_mul, one_mul]
+  have : (Pᵀ * P) * (Pᵀ * D * P) = Pᵀ * D * P := by
+    calc (Pᵀ * P) * (Pᵀ * D * P) = Pᵀ * (P * Pᵀ) * D * P := by simp only [Matrix.mul_assoc]
+      _ = _ := by rw [hP, Matrix.mul_one]
+  rw [this, sub_self]
+
+theorem compl_idem : (1 - Pᵀ * P) * (1 - Pᵀ * P) = 1 - Pᵀ * P := by
+  have : Pᵀ * P * (Pᵀ * P) = Pᵀ * P := by
+    calc Pᵀ * P * (Pᵀ * P) = Pᵀ * (P * Pᵀ) * P := by simp only [Matrix.mul_assoc]
+      _ = _ := by rw [hP, Matrix.mul_one]
+  simp only [sub_mul, mul_sub, one_mul, mul_one, this]
+  abel
+
+/-- `X = Pᵀ diag(r) P + c (1 - PᵀP)` squared times `a (1 - PᵀP) + Pᵀ diag(d) P` when `r² d = 1`, `c² a = 1` -/
+theorem inverse_root_identity (r d : Fin m → R) (c a : R) (hr : ∀ i, r i * r i * d i = 1) (hc : c * c * a = 1) :
+    (Pᵀ * diagonal r * P + c • (1 - Pᵀ * P)) * (Pᵀ * diagonal r * P + c • (1 - Pᵀ * P))
+      * (a • (1 - Pᵀ * P) + Pᵀ * diagonal d * P) = 1 := by
+  have e1 := sandwich_mul P hP
+  have e2 := sandwich_mul_compl P hP
+  have e3 := compl_mul_sandwich P hP
+  have e4 := compl_idem P hP
+  have hXX : (Pᵀ * diagonal r * P + c • (1 - Pᵀ * P)) * (Pᵀ * diagonal r * P + c • (1 - Pᵀ * P))
+      = Pᵀ * (diagonal r * diagonal r) * P + (c * c) • (1 - Pᵀ * P) := by
+    simp only [add_mul, mul_add, smul_mul_assoc, mul_smul_comm, e1, e2, e3, e4, smul_zero, add_zero, zero_add,
+      smul_smul]
+  rw [hXX]
+  simp only [add_mul, mul_add, smul_mul_assoc, mul_smul_comm, e1, e2, e3, e4, smul_zero, add_zero, zero_add,
+    smul_smul, diagonal_mul_diagonal]
+  have hd : (fun i => r i * r i * d i) = fun _ => (1 : R) := funext hr
+  have hc' : a * (c * c) = 1 := by rw [mul_comm]; exact hc
+  rw [hd, hc', one_smul]
+  have : (diagonal fun _ : Fin m => (1 : R)) = 1 := by ext i j; simp [diagonal, Matrix.one_apply]
+  rw [this, Matrix.mul_one]
+  abel
+
+
+omit hP in
+theorem safeInvert_nonneg (rsqrt : R → R) (hrs : ∀ x, 0 < x → 0 < rsqrt x) (x : R) : 0 ≤ safeInvert rsqrt x := by
+  unfold safeInvert
+  split
+  · exact le_rfl
+  · exact (hrs x (lt_of_not_ge ‹_›)).le
+
+omit hP in
+theorem safeInvert_pos (rsqrt : R → R) {x : R} (hx : 0 < x) : safeInvert rsqrt x = rsqrt x := by
+  unfold safeInvert
+  rw [if_neg (not_le.mpr hx)]
+
+end A
+
+section A2
+variable {R : Type} [Field R] [LinearOrder R] [IsStrictOrderedRing R] [StarRing R] [TrivialStar R] [StarOrderedRing R]
+variable {m n k : ℕ}
+
+theorem appliedMatrix_psd (rsqrt : R → R) (hrs : ∀ x, 0 < x → 0 < rsqrt x) (alpha : R) (P : Mat R m n)
+    (s2 : Vec R m) (hP : toM P * (toM P)ᵀ = 1) : (appliedMatrix rsqrt alpha P s2).PosSemidef := by
+  unfold appliedMatrix
+  refine PosSemidef.add ?_ ((one_sub_proj_psd (toM P) hP).smul (safeInvert_nonneg rsqrt hrs alpha))
+  have hd : (diagonal fun i => safeInvert rsqrt (alpha + s2 i)).PosSemidef :=
+    PosSemidef.diagonal fun i => safeInvert_nonneg rsqrt hrs _
+  have := hd.mul_mul_conjTranspose_same (toM P)ᵀ
+  simpa using this
+
+theorem appliedMatrix_inverse_root (rsqrt : R → R)
+    (hrs : ∀ x, 0 < x → 0 < rsqrt x ∧ rsqrt x * rsqrt x * x = 1) (alpha : R) (hα : 0 < alpha)
+    (P : Mat R m n) (s2 : Vec R m) (hs2 : ∀ i, 0 ≤ s2 i) (hP : toM P * (toM P)ᵀ = 1) :
+    appliedMatrix rsqrt alpha P s2 * appliedMatrix rsqrt alpha P s2
+      * (alpha • (1 : Matrix (Fin n) (Fin n) R) + (toM P)ᵀ * diagonal s2 * toM P) = 1 := by
+  have hdec : alpha • (1 : Matrix (Fin n) (Fin n) R) + (toM P)ᵀ * diagonal s2 * toM P
+      = alpha • (1 - (toM P)ᵀ * toM P) + (toM P)ᵀ * diagonal (fun i => alpha + s2 i) * toM P := by
+    have : diagonal (fun i => alpha + s2 i) = alpha • (1 : Matrix (Fin m) (Fin m) R) + diagonal s2 := by
+      ext i j; by_cases h : i = j <;> simp [diagonal, h]
+    rw [this, Matrix.mul_add, Matrix.add_mul, smul_sub]
+    simp only [Matrix.mul_smul, Matrix.smul_mul, Matrix.mul_one]
+    abel
+  rw [hdec]
+  unfold appliedMatrix
+  exact inverse_root_identity (toM P) hP _ _ _ _
+    (fun i => by
+      have hp : 0 < alpha + s2 i := by have := hs2 i; linarith
+      rw [safeInvert_pos rsqrt hp]; exact (hrs _ hp).2)
+    (by rw [safeInvert_pos rsqrt hα]; exact (hrs _ hα).2)
+
+end A2
+
+section B
+variable {R : Type} [Field R] [LinearOrder R] [IsStrictOrderedRing R] [StarRing R] [TrivialStar R] [StarOrderedRing R]
+variable {n k : ℕ}
+variable (svd : SvdFn R (k + 1) n) (sqrt rsqrt : R → R) (algo : Algo) (lr : R)
+
+/-- a step without escaped mass is exact: the new sketch has the second moment of `B` -/
+theorem fd_exact_step (hsq : ∀ x, 0 ≤ x → sqrt x * sqrt x = x) (st : FdState R k n) (g : Vec R n)
+    (h0 : ∀ j, sketchRows st (Fin.last k) j = 0)
+    (h : SvdSpec (fdB sqrt rsqrt algo lr st g) (svd (fdB sqrt rsqrt algo lr st g)))
+    (hρ : fdRho svd sqrt rsqrt algo lr st g = 0) :
+    gram (sketchRows (fdUpdate svd sqrt rsqrt algo lr st g)) = gram (sketchRows st) +
+      vecMulVec (gradInput (sketchFactor sqrt rsqrt algo (st.t + 1) lr) g)
+        (gradInput (sketchFactor sqrt rsqrt algo (st.t + 1) lr) g) := by
+  have hd := fd_deflation svd sqrt rsqrt algo lr hsq st g h
+  rw [hρ, zero_smul, sub_eq_zero] at hd
+  rw [← hd, gram_fdB sqrt rsqrt algo lr st g h0]
+
+theorem fdInputsFrom_sAda (gs : List (Vec R n)) (st : FdState R k n) :
+    fdInputsFrom svd sqrt rsqrt .sAda lr st gs = gs := by
+  induction gs generalizing st with
+  | nil => rfl
+  | cons g gs ih =>
+    simp only [fdInputsFrom, ih]
+    congr 1
+    funext j; simp [gradInput, sketchFactor]
+
+/-- the SVD returns a zero smallest singular value on a matrix that factors through `r < k+1` rows -/
+theorem sigma_min_zero_of_factor {B : Mat R (k + 1) n} {o : SvdOut R (k + 1) n} (h : SvdSpec B o) {r : ℕ}
+    (hr : r < k + 1) (Cf : Matrix (Fin (k + 1)) (Fin r) R) (W : Matrix (Fin r) (Fin n) R)
+    (hB : toM B = Cf * W) : o.s (Fin.last k) = 0 := by
+  by_contra hne
+  obtain ⟨hrec, hV, hU⟩ := h.matrix_form
+  have hpos : ∀ i, o.s i ≠ 0 := fun i => by
+    have h1 : o.s (Fin.last k) ≤ o.s i := h.sorted i (Fin.last k) (Fin.le_last i)
+    have h2 : 0 ≤ o.s (Fin.last k) := h.nonneg _
+    have h3 : 0 < o.s (Fin.last k) := lt_of_le_of_ne h2 (Ne.symm hne)
+    exact (lt_of_lt_of_le h3 h1).ne'
+  have hUD : toM B * (toM o.Vt)ᵀ = toM o.U * diagonal o.s := by
+    rw [hrec, Matrix.mul_assoc, hV, Matrix.mul_one]
+  have hdet : (toM o.U * diagonal o.s).det ≠ 0 := by
+    rw [det_mul, det_diagonal]
+    refine mul_ne_zero ?_ (Finset.prod_ne_zero_iff.mpr fun i _ => hpos i)
+    intro h0
+    have := congrArg det hU
+    rw [det_mul, det_transpose, h0, mul_zero, det_one] at this
+    exact zero_ne_one this
+  have hrank := rank_of_det_ne_zero hdet
+  rw [← hUD, hB, Matrix.mul_assoc, Fintype.card_fin] at hrank
+  have hle : (Cf * (W * (toM o.Vt)ᵀ)).rank ≤ r :=
+    (rank_mul_le_left _ _).trans (rank_le_width Cf)
+  omega
+
+
+/-- `sqrt (x * x) = x` for `x ≥ 0` from the kernel specification -/
+theorem sqrt_mul_self_of_spec (hsq : ∀ x, 0 ≤ x → sqrt x * sqrt x = x) (hsq0 : ∀ x, 0 ≤ x → 0 ≤ sqrt x)
+    {x : R} (hx : 0 ≤ x) : sqrt (x * x) = x := by
+  have h1 := hsq (x * x) (mul_self_nonneg x)
+  have h2 := hsq0 (x * x) (mul_self_nonneg x)
+  rcases mul_self_eq_mul_self_iff.mp h1 with h | h
+  · exact h
+  · linarith
+
+/-- the rows of the sketch lie in the row space of `W` -/
+def InSpan {r : ℕ} (W : Matrix (Fin r) (Fin n) R) (st : FdState R k n) : Prop :=
+  ∃ C : Matrix (Fin (k + 1)) (Fin r) R, toM (sketchRows st) = C * W
+
+theorem fdB_factor {r : ℕ} (W : Matrix (Fin r) (Fin n) R) (st : FdState R k n) (g : Vec R n)
+    (hst : InSpan W st) (hg : ∃ c : Fin r → R, g = c ᵥ* W) :
+    ∃ Cf : Matrix (Fin (k + 1)) (Fin r) R, toM (fdB sqrt rsqrt algo lr st g) = Cf * W := by
+  obtain ⟨C, hC⟩ := hst
+  obtain ⟨c, rfl⟩ := hg
+  refine ⟨Matrix.of fun i l => if i = Fin.last k then c l * sketchFactor sqrt rsqrt algo (st.t + 1) lr else C i l, ?_⟩
+  ext i j
+  have hCij : sketchRows st i j = ∑ l, C i l * W l j := by
+    have := congrFun (congrFun hC i) j
+    simpa [Matrix.mul_apply] using this
+  by_cases hi : i = Fin.last k
+  · simp [fdB, setLastRow, gradInput, hi, Matrix.mul_apply, vecMul, dotProduct, Finset.sum_mul, mul_right_comm]
+  · simp [fdB, setLastRow, hi, Matrix.mul_apply, hCij]
+
+/-- one lossless step: no escaped mass, and the new sketch rows stay in the row space -/
+theorem fd_lossless_step (hsq : ∀ x, 0 ≤ x → sqrt x * sqrt x = x) (hsq0 : ∀ x, 0 ≤ x → 0 ≤ sqrt x)
+    {r : ℕ} (hr : r < k + 1) (W : Matrix (Fin r) (Fin n) R) (st : FdState R k n) (g : Vec R n)
+    (hst : InSpan W st) (hg : ∃ c : Fin r → R, g = c ᵥ* W)
+    (h : SvdSpec (fdB sqrt rsqrt algo lr st g) (svd (fdB sqrt rsqrt algo lr st g))) :
+    fdRho svd sqrt rsqrt algo lr st g = 0 ∧ InSpan W (fdUpdate svd sqrt rsqrt algo lr st g) := by
+  obtain ⟨Cf, hCf⟩ := fdB_factor sqrt rsqrt algo lr W st g hst hg
+  have hσ : (svd (fdB sqrt rsqrt algo lr st g)).s (Fin.last k) = 0 := sigma_min_zero_of_factor h hr Cf W hCf
+  refine ⟨by simp [fdRho, fdSigmaMin, hσ], ?_⟩
+  obtain ⟨hrec, hV, hU⟩ := h.matrix_form
+  set o := svd (fdB sqrt rsqrt algo lr st g) with ho
+  refine ⟨(toM o.U)ᵀ * Cf, ?_⟩
+  have hrows : toM (sketchRows (fdUpdate svd sqrt rsqrt algo lr st g)) = diagonal o.s * toM o.Vt := by
+    ext i j
+    have : sqrt (o.s i * o.s i) = o.s i := sqrt_mul_self_of_spec sqrt hsq hsq0 (h.nonneg i)
+    simp [sketchRows, fdUpdate, ← ho, hσ, deflate, this, Matrix.diagonal_mul, mul_comm]
+  rw [hrows, Matrix.mul_assoc, ← hCf, hrec]
+  calc diagonal o.s * toM o.Vt = ((toM o.U)ᵀ * toM o.U) * (diagonal o.s * toM o.Vt) := by rw [hU, Matrix.one_mul]
+    _ = _ := by simp only [Matrix.mul_assoc]
+
+theorem fd_lossless_from (hsq : ∀ x, 0 ≤ x → sqrt x * sqrt x = x) (hsq0 : ∀ x, 0 ≤ x → 0 ≤ sqrt x)
+    {r : ℕ} (hr : r < k + 1) (W : Matrix (Fin r) (Fin n) R) (gs : List (Vec R n)) :
+    ∀ (st : FdState R k n), (∀ j, sketchRows st (Fin.last k) j = 0) → InSpan W st →
+    SvdAlong svd sqrt rsqrt algo lr st gs → (∀ g ∈ gs, ∃ c : Fin r → R, g = c ᵥ* W) →
+    (∀ ρ ∈ fdRhosFrom svd sqrt rsqrt algo lr st gs, ρ = 0) ∧
+    InSpan W (fdRunFrom svd sqrt rsqrt algo lr st gs) ∧
+    gram (sketchRows (fdRunFrom svd sqrt rsqrt algo lr st gs))
+      = gram (sketchRows st) + inputsCov (fdInputsFrom svd sqrt rsqrt algo lr st gs) := by
+  induction gs with
+  | nil => intro st _ hst _ _; simp [fdRhosFrom, fdRunFrom, fdInputsFrom, hst]
+  | cons g gs ih =>
+    intro st h0 hst hs hW
+    obtain ⟨hρ, hst'⟩ := fd_lossless_step svd sqrt rsqrt algo lr hsq hsq0 hr W st g hst
+      (hW g (List.mem_cons_self ..)) hs.1
+    obtain ⟨h1, h2, h3⟩ := ih (fdUpdate svd sqrt rsqrt algo lr st g)
+      (fdUpdate_last_row svd sqrt rsqrt algo lr (sqrt_zero_of_spec sqrt hsq) st g) hst' hs.2
+      (fun x hx => hW x (List.mem_cons_of_mem _ hx))
+    refine ⟨?_, by simpa [fdRunFrom] using h2, ?_⟩
+    · intro ρ hmem
+      simp only [fdRhosFrom, List.mem_cons] at hmem
+      rcases hmem with rfl | hmem
+      · exact hρ
+      · exact h1 ρ hmem
+    · have := fd_exact_step svd sqrt rsqrt algo lr hsq st g h0 hs.1 hρ
+      simp only [fdRunFrom_cons, fdInputsFrom, inputsCov_cons, h3, this]
+      abel
+
+theorem list_sum_eq_zero_of_all_zero (l : List R) (h : ∀ x ∈ l, x = 0) : l.sum = 0 := by
+  induction l with
+  | nil => rfl
+  | cons a l ih =>
+    rw [List.sum_cons, h a (List.mem_cons_self ..), ih (fun x hx => h x (List.mem_cons_of_mem _ hx)), add_zero]
+
+
+theorem fdUpdate_w_sAda (st : FdState R k n) (g : Vec R n) (hsq : ∀ x, 0 ≤ x → sqrt x * sqrt x = x)
+    (h : SvdSpec (fdB sqrt rsqrt .sAda lr st g) (svd (fdB sqrt rsqrt .sAda lr st g))) (j : Fin n) :
+    (fdUpdate svd sqrt rsqrt .sAda lr st g).w j = st.w j - lr *
+      (appliedMatrix rsqrt (fdUpdate svd sqrt rsqrt .sAda lr st g).alpha (fdUpdate svd sqrt rsqrt .sAda lr st g).P
+        (fun i => (fdUpdate svd sqrt rsqrt .sAda lr st g).e i * (fdUpdate svd sqrt rsqrt .sAda lr st g).e i) *ᵥ g) j := by
+  set o := svd (fdB sqrt rsqrt .sAda lr st g) with ho
+  have hdef : ∀ i, 0 ≤ deflate o.s (o.s (Fin.last k)) i := fun i => by
+    have h1 : o.s (Fin.last k) ≤ o.s i := h.sorted i (Fin.last k) (Fin.le_last i)
+    have h2 : 0 ≤ o.s (Fin.last k) := h.nonneg _
+    exact mul_nonneg (by linarith) (by linarith)
+  have he : (fun i => (fdUpdate svd sqrt rsqrt .sAda lr st g).e i * (fdUpdate svd sqrt rsqrt .sAda lr st g).e i)
+      = deflate o.s (o.s (Fin.last k)) := by
+    funext i
+    simp only [fdUpdate, force_eq, ← ho]
+    exact hsq _ (hdef i)
+  rw [he, ← precondGeneric_eq]
+  simp [fdUpdate, factors, fdDirection, ← ho]
+
+
+/-- one S-AdaGrad step from a state whose sketch rows and the new gradient lie in a space of dimension
+below the sketch size: nothing escapes, `alpha` is unchanged, the sketch stays exact, and the matrix applied to
+the gradient is a positive semidefinite inverse square root of `alpha I + (sketch second moment + g gᵀ)`. -/
+theorem sada_lossless_step (hsq : ∀ x, 0 ≤ x → sqrt x * sqrt x = x) (hsq0 : ∀ x, 0 ≤ x → 0 ≤ sqrt x)
+    (hrs : ∀ x, 0 < x → 0 < rsqrt x ∧ rsqrt x * rsqrt x * x = 1)
+    {r : ℕ} (hr : r < k + 1) (W : Matrix (Fin r) (Fin n) R) (st : FdState R k n) (g : Vec R n)
+    (hst : InSpan W st) (h0 : ∀ j, sketchRows st (Fin.last k) j = 0) (hα : 0 < st.alpha)
+    (hg : ∃ c : Fin r → R, g = c ᵥ* W)
+    (h : SvdSpec (fdB sqrt rsqrt .sAda lr st g) (svd (fdB sqrt rsqrt .sAda lr st g))) :
+    fdRho svd sqrt rsqrt .sAda lr st g = 0 ∧
+    (fdUpdate svd sqrt rsqrt .sAda lr st g).alpha = st.alpha ∧
+    gram (sketchRows (fdUpdate svd sqrt rsqrt .sAda lr st g)) = gram (sketchRows st) + vecMulVec g g ∧
+    ∃ X : Matrix (Fin n) (Fin n) R,
+      (∀ j, (fdUpdate svd sqrt rsqrt .sAda lr st g).w j = st.w j - lr * (X *ᵥ g) j) ∧
+      X.PosSemidef ∧
+      X * X * (st.alpha • (1 : Matrix (Fin n) (Fin n) R) + (gram (sketchRows st) + vecMulVec g g)) = 1 := by
+  obtain ⟨hρ, -⟩ := fd_lossless_step svd sqrt rsqrt .sAda lr hsq hsq0 hr W st g hst hg h
+  have hα' : (fdUpdate svd sqrt rsqrt .sAda lr st g).alpha = st.alpha := by
+    rw [fdUpdate_alpha, hρ, mul_zero, add_zero]
+  have hgram' : gram (sketchRows (fdUpdate svd sqrt rsqrt .sAda lr st g))
+      = gram (sketchRows st) + vecMulVec g g := by
+    rw [fd_exact_step svd sqrt rsqrt .sAda lr hsq st g h0 h hρ]
+    have : gradInput (sketchFactor sqrt rsqrt .sAda (st.t + 1) lr) g = g := by
+      funext j; simp [gradInput, sketchFactor]
+    rw [this]
+  refine ⟨hρ, hα', hgram', ?_⟩
+  have hP : toM (fdUpdate svd sqrt rsqrt .sAda lr st g).P * (toM (fdUpdate svd sqrt rsqrt .sAda lr st g).P)ᵀ = 1 :=
+    h.matrix_form.2.1
+  refine ⟨_, fun j => fdUpdate_w_sAda svd sqrt rsqrt lr st g hsq h j,
+    appliedMatrix_psd rsqrt (fun x hx => (hrs x hx).1) _ _ _ hP, ?_⟩
+  have := appliedMatrix_inverse_root rsqrt hrs (fdUpdate svd sqrt rsqrt .sAda lr st g).alpha
+    (by rw [hα']; exact hα) (fdUpdate svd sqrt rsqrt .sAda lr st g).P
+    (fun i => (fdUpdate svd sqrt rsqrt .sAda lr st g).e i * (fdUpdate svd sqrt rsqrt .sAda lr st g).e i)
+    (fun i => mul_self_nonneg _) hP
+  rw [← gram_scaled_rows] at this
+  have hrows : (fun i j => (fdUpdate svd sqrt rsqrt .sAda lr st g).P i j * (fdUpdate svd sqrt rsqrt .sAda lr st g).e i)
+      = sketchRows (fdUpdate svd sqrt rsqrt .sAda lr st g) := rfl
+  rw [hrows, hgram'] at this
+  rw [← hα']
+  exact this
+
+end B
 end PrecondVerif.OCO
